@@ -394,10 +394,8 @@ class SumAggregator:
                 for blit in stm.body:
                     if blit.ast_type == ASTType.Literal:
                         atom = blit.atom
-                        if atom.ast_type == ASTType.BodyAggregate and atom.function in (
-                            AggregateFunction.Sum,
-                            AggregateFunction.SumPlus,
-                        ):
+                        # not #sum+, the telescoping differences only add up if negative weights count as well
+                        if atom.ast_type == ASTType.BodyAggregate and atom.function == AggregateFunction.Sum:
                             newatom = atom.update(elements=self._replace_elements(atom.elements, ret))
                             newbody.append(blit.update(atom=newatom))
                         else:
